@@ -87,6 +87,22 @@ def run(ctx):
                     cuts.append([s, a_, b_, e])
             if not cuts:
                 continue
+            if "Gaussian" in name:
+                def well_conditioned(cut):
+                    parts = list(zip(cut[:-1], cut[1:])) + [(cut[0], cut[-1])]
+                    for Xv in (X, Xs, Xa):
+                        segs = [Xv[a_:b_] for a_, b_ in parts]
+                        if k == 4:
+                            segs.append(np.concatenate((Xv[cut[0]:cut[1]], Xv[cut[2]:cut[3]])))
+                        for seg in segs:
+                            if len(seg) and np.any(seg.var(axis=0) < 1e-6 * seg.mean(axis=0) ** 2 + 1e-13):
+                                return False
+                    return True
+                kept = [c_ for c_ in cuts if well_conditioned(c_)]
+                ctx.count("ill_conditioned_cuts_skipped", len(cuts) - len(kept))
+                cuts = kept
+                if not cuts:
+                    continue
             cuts = np.asarray(cuts)
             mirrored = (n - cuts[:, ::-1])
             inp = dict(inp0, scorer=name, cuts=cuts.tolist())
